@@ -357,6 +357,44 @@ Proof.
   repeat constructor.
 Qed.
 
+(* "Get returns the value most recently set", over whole histories: after a successful Set(k,v),
+   any number of later valid updates of OTHER keys (inserted, refused at the limit, or deleted)
+   leaves Get(k) = v *)
+Definition other_valid_upd (k : bytes) (u : upd) : Prop :=
+  match u with
+  | USet k' v' => k' <> k /\ is_valid_key k' = true /\ is_valid_value v' = true
+  | UDel k' => k' <> k /\ is_valid_key k' = true
+  end.
+
+Lemma get_stable_under_other_updates k v us : forall l0,
+  ts_get k l0 = Some v -> Forall (other_valid_upd k) us -> ts_get k (fold_left apply_upd us l0) = Some v.
+Proof.
+  induction us as [|u us IH]; intros l0 G F; [exact G|]. inversion F as [|? ? Hu F']; subst.
+  cbn [fold_left]. apply IH; [|exact F']. destruct u as [k' v'|k']; cbn [apply_upd other_valid_upd] in *.
+  - destruct Hu as (N & Vk & Vv). destruct (set_spec k' v' l0) as (S1 & S2 & _).
+    destruct (has_key k' l0) eqn:Hk.
+    + rewrite get_after_set_other; [exact G | congruence | rewrite (S1 Vk Vv (or_introl eq_refl)); discriminate].
+    + destruct (Nat.ltb (length l0) kMaxKeyValuePairs) eqn:Lt.
+      * apply Nat.ltb_lt in Lt. rewrite get_after_set_other; [exact G | congruence | rewrite (S1 Vk Vv (or_intror Lt)); discriminate].
+      * apply Nat.ltb_ge in Lt. rewrite (S2 Vk Vv eq_refl Lt). exact G.
+  - destruct Hu as (N & Vk). destruct (delete_spec k' l0) as (_ & _ & D & _). rewrite (D Vk k); [exact G | congruence].
+Qed.
+
+Theorem get_most_recent_set k v l us :
+  is_valid_key k = true -> is_valid_value v = true -> (has_key k l = true \/ length l < kMaxKeyValuePairs) ->
+  Forall (other_valid_upd k) us ->
+  ts_get k (fold_left apply_upd us (ts_set k v l)) = Some v.
+Proof. intros Hk Hv H F. apply get_stable_under_other_updates; [apply get_after_set; assumption | exact F]. Qed.
+
+Example get_most_recent_set_nonvacuous :
+  Forall (other_valid_upd (bs "k")) [USet (bs "a") (bs "1"); UDel (bs "b"); USet (bs "a") (bs "2")] /\
+  ts_get (bs "k") (fold_left apply_upd [USet (bs "a") (bs "1"); UDel (bs "b"); USet (bs "a") (bs "2")] (ts_set (bs "k") (bs "v") []))
+    = Some (bs "v").
+Proof.
+  split; [|vm_compute; reflexivity].
+  repeat constructor; try (intros H; discriminate H); vm_compute; reflexivity.
+Qed.
+
 (* ================================================================ FromHeader: all or nothing *)
 Lemma num_tokens_spec_count h : num_tokens h = spec_count h.
 Proof.
